@@ -7,13 +7,13 @@ import check
 pid = sys.argv[1]; seed = sys.argv[2] if len(sys.argv) > 2 else None
 tier = os.environ.get('VERIF_TIER', 'quick')
 if seed:
-    rc = subprocess.call(['git', '-C', '/repo', 'apply', '/verif/seeded/%s/patch.diff' % seed])
+    rc = subprocess.call(["git", "-C", "/repo", "apply", "/verif/seeded/%s/patch.diff" % seed])
     if rc: sys.exit('patch does not apply')
 try:
     mod = importlib.import_module('props.' + pid)
     tmp = tempfile.mkdtemp(); log = []
-    impl = check.build_impl(tmp, log)
-    ctx = {'tmp': tmp, 'tier': tier, 'seed': int(os.environ.get('VERIF_SEED', '1')), 'verif': '/verif', 'impl': impl, 'model': '/verif/ocaml/driver',
+    area = getattr(mod, 'AREA', 'base'); impl = check.build_impl(tmp, log, area=area, extra_flags=getattr(mod, 'IMPL_FLAGS', ''))
+    ctx = {'tmp': tmp, 'tier': tier, 'seed': int(os.environ.get('VERIF_SEED', '1')), 'verif': '/verif', 'impl': impl, 'model': '/verif/ocaml/driver_' + area,
            'run_driver': check.run_driver, 'build_impl': check.build_impl, 'sh': check.sh, 'log': log, 'repo': '/repo'}
     cases = mod.corpus(ctx) + mod.generate(ctx)
     lines = [c.line for c in cases]
